@@ -117,6 +117,17 @@ check("C17", "model_checking",
       "another bit is set. Trusted: the dispatch model.",
       "exhaustive enumeration of configurations on the implementation vs reference model", "DESIGN.md §2 C17")
 
+check("C20", "exploration",
+      "Complete product: 2 (thorough 4) generated multi-file projects (functions f/g/h/helper in files with and without top-level "
+      "code, one source->sink flow in an uncalled function, one in a called helper, one at top level) x every entry-rule set of "
+      "size <=2 from a 10-rule alphabet (unit initialiser, names, name lists, lang match/mismatch, unit_name, unit_path, attrs, a "
+      "second *-entry.yaml file) plus the empty set, each through the real `run` pipeline. Oracle: rule-matching model -> expected "
+      "start set == recorded entry points; every selected method analysed even if uncalled; nothing outside the call closure of "
+      "the starts analysed; flows(R) == union of flows({e}); flows(empty) == empty.",
+      "Small scope (two/three files, five method names). File names chosen so that equality / suffix / substring readings of "
+      "unit_name and unit_path coincide; args / return_type / attrs-bearing methods not generated.",
+      "exhaustive enumeration of configurations (projects x rule sets), reference matching model + differential union oracle", "DESIGN.md §2 C20")
+
 ALL = [f"C{n:02d}" for n in range(1, 21)]
 
 
